@@ -130,6 +130,101 @@ func.func @f(%A : {ta}, %B : {tb}, %C : {tc}) {{
 """
 
 
+def tiles_src(which):
+    """16x16x16 matmul on tiles (memref.subview with run-time offsets) of larger tiled-strided buffers; `which`: which
+    of the offsets (A rows, B columns, D rows, D columns) are run-time values, the others are 0."""
+    LA, LB, LD = "#tsl.tsl<[4, 8] -> (128, 8), [2, 8] -> (64, 1)>", "#tsl.tsl<[2, 8] -> (64, 1), [4, 8] -> (128, 8)>", "#tsl.tsl<[4, 8] -> (256, 8), [4, 8] -> (64, 1)>"
+    LAs, LBs, LDs = "#tsl.tsl<[2, 8] -> (128, 8), [2, 8] -> (64, 1)>", "#tsl.tsl<[2, 8] -> (64, 1), [2, 8] -> (128, 8)>", "#tsl.tsl<[2, 8] -> (256, 8), [2, 8] -> (64, 1)>"
+    TA, TB, TD = f"memref<32x16xi8, {LA}>", f"memref<16x32xi8, {LB}>", f"memref<32x32xi32, {LD}>"
+    TAs, TBs, TDs = f"memref<16x16xi8, {LAs}>", f"memref<16x16xi8, {LBs}>", f"memref<16x16xi32, {LDs}>"
+    o = lambda k, v: v if k in which else "0"
+    return f"""
+func.func @f(%A : {TA}, %B : {TB}, %D : {TD}, %i : index, %j : index) {{
+  %z = arith.constant 0 : i32
+  %a = memref.subview %A[{o("ai", "%i")}, 0] [16, 16] [1, 1] : {TA} to {TAs}
+  %b = memref.subview %B[0, {o("bj", "%j")}] [16, 16] [1, 1] : {TB} to {TBs}
+  %d = memref.subview %D[{o("di", "%i")}, {o("dj", "%j")}] [16, 16] [1, 1] : {TD} to {TDs}
+  "dart.operation"(%a, %b, %d) <{{patterns = [affine_map<(d0, d1, d2) -> (d0, d2)>, affine_map<(d0, d1, d2) -> (d2, d1)>, affine_map<(d0, d1, d2) -> (d0, d1)>], accelerator = "snax_gemmx", operandSegmentSizes = array<i32: 2, 1>}}> ({{
+  ^bb0(%s0 : !dart.stream<i8>, %s1 : !dart.stream<i8>, %s2 : !dart.stream<i32>):
+    %g = "dart.generic"(%s0, %s1, %z, %z) <{{library_call = "snax_gemmx"}}> ({{
+    ^bb1(%p : i8, %q : i8, %za : i32, %zb : i32, %acc : i32):
+      %m = kernel.qmac %p, %q zp_lhs : %za zp_rhs : %zb : i8, i8, i32, i32 -> i32
+      dart.yield %m : i32
+    }}) : (!dart.stream<i8>, !dart.stream<i8>, i32, i32) -> !dart.stream<i32>
+    dart.yield %g : !dart.stream<i32>
+  }}) : ({TAs}, {TBs}, {TDs}) -> ()
+  func.return
+}}
+"""
+
+
+def tile_pointers(m, main):
+    """For every stream whose pointer is taken from a tile view (memref.subview): (stream, pointer after
+    convert-memref-to-arith, expected pointer = aligned pointer of the viewed buffer + byte position of the view's first
+    element in that buffer's layout)."""
+    from xdsl.dialects import memref
+
+    from snaxc.dialects import snax_stream
+
+    R = [o for o in m.walk() if isinstance(o, snax_stream.StreamingRegionOp)][0]
+    chains = {}
+    for k, o in enumerate(R.operands):
+        if hasattr(o, "owner") and getattr(o.owner, "name", "") == "memref.extract_aligned_pointer_as_index":
+            v, chain = o.owner.source, []
+            while isinstance(v.owner, memref.SubviewOp):
+                sv = v.owner
+                dyn = iter(sv.offsets)
+                chain.append((sv.source, [next(dyn) if so < 0 else so for so in sv.static_offsets.get_values()]))
+                v = sv.source
+            if chain:
+                chains[k] = (v, chain)  # root buffer, views from the innermost outwards
+    xshim.apply_passes(m, "convert-memref-to-arith", main)
+    f0 = irsym.module_funcs(m)[0]
+    I = irsym.Interp(intmode=True)
+    bases, views, got = {}, {}, {}
+
+    def root_of(v):
+        while v in views:
+            v = views[v]
+        return v
+
+    def h_subview(I, op):
+        views[op.result] = op.source
+        I.set(op.result, irsym.Opaque("view"))
+
+    def h_ptr(I, op):
+        I.set(op.results[0], bases.setdefault(root_of(op.source), z3.Int(f"base{len(bases)}")))  # a view shares the aligned pointer of its source
+
+    def h_region(I, op):
+        for k, o in enumerate(op.operands):
+            got[k] = I.get(o)
+
+    I.handlers.update({"memref.subview": h_subview, "memref.extract_aligned_pointer_as_index": h_ptr, "snax_stream.streaming_region": h_region})
+    args, offvars = [], []
+    for a in f0.body.blocks[0].args:
+        if a.type.name == "index":
+            offvars.append(z3.Int(f"off_{a.name_hint or len(args)}"))
+            args.append(offvars[-1])
+        else:
+            args.append(irsym.Opaque("memref"))
+    I.run_func(f0, args)
+    out = []
+    for k, (root, chain) in chains.items():
+        expected = bases.setdefault(root, z3.Int(f"base{len(bases)}"))
+        ok, shown = True, []
+        for parent, offs in chain:
+            ref, _ = layout_ref(parent.type)
+            if ref is None:
+                ok = False
+                break
+            ov = [z3.IntVal(o) if isinstance(o, int) else I.get(o) for o in offs]
+            shown.append([str(o) for o in ov])
+            expected = expected + ref(ov) - ref([z3.IntVal(0)] * len(ov))
+        if ok and k in got:
+            out.append((k, got[k], expected, shown))
+    return out, offvars
+
+
 def gemm4_src(ta, tb, tc, td):
     """D = A*B + C on snax_gemmx (four operands, i32 output)"""
     return f"""
@@ -402,6 +497,8 @@ def case_pipeline(case):
     elif kind == "gemmx":
         _, (M, N, K), i8out, lays, setl = case
         src, acc, pre = gemmx_src(M, N, K, i8out, lays), "snax_gemmx", ["dart-scheduler"]
+    elif kind == "tiles":
+        src, acc, pre, setl = tiles_src(case[1]), "snax_gemmx", ["dart-scheduler"], None
     elif kind == "bgemmx":
         _, (Bt, M, N, K), lays, setl = case
         src, acc, pre = bgemmx_src(Bt, M, N, K, lays), "snax_gemmx", ["dart-scheduler"]
@@ -419,6 +516,23 @@ def case_pipeline(case):
 
     def fn():
         check(src, acc, pre, setl, str(case)[:120])
+        if kind == "tiles":
+            # the pointers of the tile views, after convert-memref-to-arith has turned them into arithmetic
+            from xdsl.parser import Parser
+
+            main = xshim.make_main()
+            m = Parser(main.ctx, src).parse_module()
+            with warnings.catch_warnings():
+                warnings.simplefilter("ignore")
+                xshim.apply_passes(m, "insert-accfg-op{accelerator=snax_gemmx},dart-scheduler,dart-layout-resolution,convert-dart-to-snax-stream", main)
+                ptrs, offvars = tile_pointers(m, main)
+            E = eng()
+            for v in offvars:
+                t = z3.Int(f"tile_{v}")
+                E.assume(z3.And(t >= 0, t <= 1, v == 8 * t * 2))  # tile-aligned offsets (0 or 16) inside the parent
+            E.oblige("tiles:every_view_pointer_checked", len(ptrs) >= 3, dict(pointers=len(ptrs)))
+            for k, got, want, offs in ptrs:
+                E.oblige("stream:base_pointer_of_a_tile_view", got == want, dict(stream=k, offsets=str(offs), what=str(case)))
 
     def replay(f):
         ok, d = replay_pinned(fn, f)
@@ -509,6 +623,10 @@ def run(chk):
         if mode is not None:
             la = lb = None
         cases.append(("gemmx", (M, N, K), rnd.random() < 0.5, (la, lb, None), mode))
+    # operands that are tiles (subviews with run-time offsets) of larger tiled buffers: the stream's base pointer is the
+    # parent's pointer moved to the tile, whichever of the offsets are run-time values
+    for which in (("ai", "bj", "di", "dj"), ("bj", "dj"), ("ai", "di"), ("dj",), ("di",), ()):
+        cases.append(("tiles", which))
     # batched matmul: a fourth loop; with layouts whose loops do not merge the B / D streamers (3 loops) cannot express
     # the pattern - refused or right
     for Bt, M, N, K in ((2, 16, 16, 16), (3, 16, 8, 16)) + (() if quick else ((2, 24, 16, 8), (4, 8, 16, 16))):
